@@ -104,6 +104,7 @@ class DState:
         self.decode_calls = []
         self.add_data_calls = []
         self.units_calls = []
+        self.call_order = []
         self.fast_calls = []
         self.msg = None
         self.new_ident = None
@@ -155,13 +156,16 @@ class DState:
 
         def add_data(ex, f, args, kwargs):
             st.add_data_calls.append((f.bound, list(args)))
+            st.call_order.append(('add_data', f.bound))
             return None
 
         def units(ex, f, args, kwargs):
             st.units_calls.append((f.bound, list(args)))
+            st.call_order.append(('apply_preferred_units', f.bound))
             return None
 
         def to_json(ex, f, args, kwargs):
+            st.call_order.append(('to_json', f.bound))
             return SStr([Atom('json-of-message')])
 
         def isoname(ex, ci, args, kwargs):
@@ -267,7 +271,7 @@ class DecodeTask(Task):
                                       meta={'note': note, 'scenario': scenario or name, 'prop': self.prop}))
             if p.kind == 'raise' and not (p.exc_name() == 'ValueError' and 'field decoder rejected' in str((p.value.attrs.get('args') or [''])[0])):
                 add('no-exception-of-its-own', False, f'_decode raises {p.exc_name()}: {str((p.value.attrs.get("args") or [""])[0])[:80]}', 'exception')
-            build = {'C10': obligations_c10, 'C11': obligations_c11, 'C15': obligations_c15, 'C16': obligations_c16, 'C08': obligations_c08, 'C17': obligations_c17}[self.prop]
+            build = {'C10': obligations_c10, 'C11': obligations_c11, 'C15': obligations_c15, 'C16': obligations_c16, 'C08': obligations_c08, 'C17': obligations_c17, 'C07': obligations_c16}[self.prop]
             build(self, p, st, add)
         for ob in obs:
             res = discharge(ob, budget(tier))
@@ -434,6 +438,12 @@ def obligations_c15(task, p, st, add):
     match = z3.Or(z3.And(S['dump_include_pgns'].n == 0, S['dump_include_pgns_ids'].n == 0), S['dump_include_pgns'].pred(st.pgn.t), S['dump_include_pgns_ids'].pred(lid))
     should = z3.And(st.dump_on.t, match)
     if lines:
+        # the line written is the JSON of the message AS RETURNED: nothing modifies the message after it was rendered
+        order = [k for k, o in st.call_order if o is msg]
+        if 'to_json' in order:
+            i = order.index('to_json')
+            add('message-is-not-modified-after-it-was-dumped', not [k for k in order[i + 1:] if k != 'to_json'] and 'add_data' in order[:i] and 'apply_preferred_units' in order[:i],
+                f'order of effects on the returned message: {order}', 'dump-order')
         add('dumped-only-when-enabled-and-matching', should, 'a line is dumped for a message that does not match the dump filter', 'dump')
         ok = len(lines) == 1 and isinstance(lines[0], SStr) and len(lines[0].parts) == 2 and lines[0].parts[1] == '\n' and isinstance(lines[0].parts[0], Atom)
         add('one-line-json-plus-newline', ok, f'written: {lines!r}')
@@ -652,3 +662,88 @@ def claim_constant(r):
 def init_tasks(prop):
     shapes = [(), ('int',), ('id',), ('claim-number',), ('claim-id',), ('int', 'id'), ('id', 'claim-id'), ('int', 'claim-number'), ('claim-number', 'claim-id'), ('id', 'id'), ('int', 'int')]
     return [InitTask(prop, w, s) for w in ('exclude', 'include') for s in shapes]
+
+
+class InitPrefsTask(Task):
+    """NMEA2000Decoder.__init__ and the preference map: for every argument map (concrete entries in every order, up to
+    three, recognised and unrecognised, mixed letter case) each RECOGNISED (quantity, unit) entry is stored under its
+    quantity with the unit lower-cased - whatever other entries the map holds (unrecognised entries may be kept or
+    dropped: they change nothing either way, C18); the argument itself is not modified."""
+    def __init__(self, prop='C18'):
+        self.prop = prop
+        self.name = f'{prop}:__init__[preferred_units]'
+
+    def run(self, tier):
+        import itertools
+        from pyvc.symex import EnumVal
+        out = {'results': [], 'functions': [], 'notes': [], 'bounded': []}
+        r = repo()
+        info = r.func(DEC + '__init__')
+        out['functions'].append(info.describe())
+        rec = [('TEMPERATURE', 'C'), ('TEMPERATURE', 'f'), ('PRESSURE', 'Bar'), ('PRESSURE', 'PSI'), ('ANGLE', 'DEG'), ('SPEED', 'kts')]
+        unrec = [('DISTANCE', 'nm'), ('ANGLE', 'grad'), ('TEMPERATURE', 'kelvin'), ('VOLUME', 'gal')]
+        maps = [[]]
+        for a in rec + unrec:
+            maps.append([a])
+        for a, b in itertools.permutations(rec[:1] + rec[2:3] + rec[4:] + unrec[:2], 2):
+            if a[0] != b[0]:
+                maps.append([a, b])
+        for trio in ([unrec[0], rec[0], rec[2]], [rec[5], unrec[1], rec[3]], [rec[4], rec[5], unrec[3]], [unrec[1], unrec[0], rec[1]], [rec[0], rec[2], rec[4]]):
+            if len({q for q, _ in trio}) == 3:
+                maps.append(trio)
+        bad = []
+        n = 0
+        for entries in maps:
+            prefs = {}
+            for q, u in entries:
+                prefs[EnumVal('PhysicalQuantities', q)] = u
+            keys0 = list(prefs.items())
+            dec = Obj(r.cls('decoder', 'NMEA2000Decoder'), {})
+            kw = {'preferred_units': prefs, 'dump_to_file': None}
+            try:
+                res = explore(r, lambda ex: ex._run_body(info, [], dict(kw), dec), contracts={}, inline={'nmea2000.decoder.NMEA2000Decoder.split_pgn_list', 'decoder.*'})
+            except V.Unsupported as u:
+                out['error'] = f'__init__: outside the modelled subset: {u}'
+                return out
+            n += 1
+            for p in res:
+                if p.kind == 'raise':
+                    bad.append(f'{entries}: raises {p.exc_name()}')
+                    continue
+                stored = dec.attrs.get('preferred_units')
+                if not isinstance(stored, dict):
+                    bad.append(f'{entries}: preferred_units is {stored!r}')
+                    continue
+                got = {getattr(k, 'member', k): v for k, v in stored.items()}
+                for q, u in entries:
+                    if (q, u) in rec and got.get(q) != u.lower():
+                        bad.append(f'{entries}: recognised preference {q}={u!r} stored as {got.get(q)!r}')
+                if list(prefs.items()) != keys0:
+                    bad.append(f'{entries}: the argument map was modified')
+        ob = Obligation(f'{self.prop}/{DEC}__init__/every-recognised-preference-is-stored-lower-cased', [], z3.BoolVal(not bad), kind='ensures', func=info.fullname,
+                        meta={'note': '; '.join(bad)[:400]})
+        res = discharge(ob, budget(tier))
+        dct = result_dict(res, with_size=False)
+        dct['function'] = info.fullname
+        if res.status == 'refuted':
+            dct['reason'] = ob.meta['note']
+            dct['replay'] = replay_prefs(maps, rec)
+        out['results'].append(dct)
+        out['notes'].append(f'{n} preference maps (concrete, every order)')
+        return out
+
+
+def replay_prefs(maps, rec):
+    from nmea2000.decoder import NMEA2000Decoder
+    from nmea2000.consts import PhysicalQuantities as PQ
+    for entries in maps:
+        prefs = {getattr(PQ, q): u for q, u in entries}
+        try:
+            d = NMEA2000Decoder(preferred_units=prefs)
+        except Exception as e:  # noqa
+            return {'confirmed': True, 'inputs': {'preferred_units': entries}, 'observed': f'{type(e).__name__}: {e}'}
+        for q, u in entries:
+            if (q, u) in rec and d.preferred_units.get(getattr(PQ, q)) != u.lower():
+                return {'confirmed': True, 'inputs': {'preferred_units': entries}, 'observed': {k.name: v for k, v in d.preferred_units.items()},
+                        'expected': f'{q} -> {u.lower()!r} stored (a recognised preference is honoured whatever else the map holds)', 'how': 'NMEA2000Decoder(preferred_units=...) on the working tree'}
+    return {'confirmed': False}
